@@ -6,7 +6,7 @@ from common import *
 import enumcheck
 
 PID = "C08"
-NSOLVERS = 6
+NSOLVERS = 8   # the six solvers, and the Newton-Raphson solver with the two other kinds of workspace
 
 
 def build():
